@@ -270,6 +270,11 @@ func runC01(c *Ctx) {
 			if len(f) < 3 {
 				continue
 			}
+			if f[0] == "liveflood" {
+				k, _ := strconv.Atoi(f[2])
+				live = append(live, c01liveItem{"utp-flood", []byte{byte(k >> 8), byte(k)}})
+				continue
+			}
 			if f[0] == "live" {
 				live = append(live, c01liveItem{f[1], unhx(f[2])})
 				continue
@@ -375,7 +380,7 @@ func runC01(c *Ctx) {
 	{
 		nt := env.nets[0]
 		hashKey := append([]byte{0x05}, r.Bytes(31)...) // 32-byte key: what Get looks up as "block hash"
-		numKey := []byte{0x05, 0, 0, 0, 0, 0, 0, 9}      // 8-byte key: decodes as a block number
+		numKey := []byte{0x05, 0, 0, 0, 0, 0, 0, 9}     // 8-byte key: decodes as a block number
 		env.exec(c, "put", nt, hashKey, numKey)
 		env.exec(c, "put", nt, numKey, r.Bytes(120))
 		for _, k := range [][]byte{{0x05, 0, 0, 0, 0, 0, 0, 8}, {0x05, 0, 0, 0, 0, 0, 0, 7}, {0x05, 0, 0, 0, 0, 0, 0, 5}, {0x05, 0, 0, 0, 0, 0, 0}, {0x05}} {
